@@ -543,6 +543,23 @@ func (a *Alias) collect() {
 					} else if cc.IsInvoke() {
 						name = "(" + types.TypeString(cc.Value.Type(), nil) + ")." + cc.Method.Name()
 					}
+					// methods of standard-library container/synchronisation types that mutate their pointer receiver
+					if f := cc.StaticCallee(); f != nil && !inModule(f) && f.Signature.Recv() != nil && len(cc.Args) > 0 {
+						if _, isPtr := f.Signature.Recv().Type().(*types.Pointer); isPtr {
+							switch ExtPkg(f) {
+							case "sync", "sync/atomic", "container/list", "container/heap", "container/ring", "bytes", "strings":
+								mname := f.Name()
+								if f.Origin() != nil {
+									mname = f.Origin().Name()
+								}
+								switch mname {
+								case "Store", "LoadOrStore", "LoadAndDelete", "Delete", "Swap", "CompareAndSwap", "CompareAndDelete", "Add", "And", "Or", "Clear",
+									"Write", "WriteByte", "WriteString", "WriteRune", "Reset", "Grow", "Truncate", "PushBack", "PushFront", "Remove", "MoveToFront", "MoveToBack", "Init", "Put":
+									a.Writes = append(a.Writes, WriteSite{Fn: fn, Instr: in, Base: cc.Args[0], Kind: "ext-write", Pos: in.Pos()})
+								}
+							}
+						}
+					}
 					if idxs, ok := extWriters[name]; ok {
 						args := cc.Args
 						if cc.IsInvoke() {
@@ -591,6 +608,19 @@ func (a *Alias) anyTainted(rs []Root) (Root, bool) {
 
 // MayAliasOwned reports whether reference v may refer to owned memory, with the root that says so.
 func (a *Alias) MayAliasOwned(v ssa.Value) (Root, bool) {
+	// a pointer into an object (field / element address) is owned when the enclosing object is
+	switch x := v.(type) {
+	case *ssa.FieldAddr:
+		if r, ok := a.MayAliasOwned(x.X); ok {
+			return r, true
+		}
+	case *ssa.IndexAddr:
+		if _, isPtr := x.X.Type().Underlying().(*types.Pointer); isPtr {
+			if r, ok := a.MayAliasOwned(x.X); ok {
+				return r, true
+			}
+		}
+	}
 	if a.OwnedType != nil {
 		if pt, isPtr := v.Type().Underlying().(*types.Pointer); isPtr {
 			if n, _ := types.Unalias(pt.Elem()).(*types.Named); n != nil && a.OwnedType(n) {
